@@ -332,12 +332,13 @@ def observe(cd, idmap, al):
             al.money(gl.taxable_event_fiat_amount_with_fee_fraction), al.money(gl.fiat_cost_basis), al.money(gl.fiat_gain),
             bool(gl.is_long_term_capital_gains()),
         ])
-        lab.append([
-            tid(gl.taxable_event), tid(lot) if lot is not None else 0,
-            gls.get_taxable_event_fraction(gl) + 1, gls.get_taxable_event_number_of_fractions(gl.taxable_event),
-            gls.get_acquired_lot_fraction(gl) + 1 if lot is not None else 0,
-            gls.get_acquired_lot_number_of_fractions(lot) if lot is not None else 0,
-        ])
+        try:
+            counts = [gls.get_taxable_event_fraction(gl) + 1, gls.get_taxable_event_number_of_fractions(gl.taxable_event),
+                      gls.get_acquired_lot_fraction(gl) + 1 if lot is not None else 0,
+                      gls.get_acquired_lot_number_of_fractions(lot) if lot is not None else 0]
+        except (KeyError, ValueError):
+            counts = [-1, -1, -1, -1]  # rp2 shows a fraction for which it has no k/n label: an observation, judged by the specification
+        lab.append([tid(gl.taxable_event), tid(lot) if lot is not None else 0] + counts)
     yr = [
         [y.year, y.transaction_type.value, bool(y.is_long_term_capital_gains), al.amt(y.crypto_amount), al.money(y.fiat_amount),
          al.money(y.fiat_cost_basis), al.money(y.fiat_gain_loss)]
@@ -392,7 +393,13 @@ def _do_job(job):
             continue  # rp2 takes no input without an acquisition (that rejection belongs to C12)
         al = Alpha(conc["U"], conc["P"], Q)
         status, acct, msg, cd, idmap = run_once(job, run)
-        obs = observe(cd, idmap, al) if cd is not None else dict(_EMPTY)
+        obs = dict(_EMPTY)
+        if cd is not None:
+            try:
+                obs = observe(cd, idmap, al)
+            except Exception as exc:  # pylint: disable=broad-except
+                # the result object cannot be read consistently (e.g. a shown transaction unknown to the run): the run did not deliver
+                status, msg = "other", f"result not readable: {type(exc).__name__}: {str(exc)[:200]}"
         results.append((run, status, acct, msg, obs, al))
     # reference run: the largest successful prefix run without window (fractions do not depend on -n)
     m = 0
